@@ -32,6 +32,12 @@ fn literal_leaves() -> Vec<(&'static str, Expr)> {
         ("string-comment-like", s("// x")),
         ("string-non-ascii", s("é中\u{1F600}\u{2028}")),
         ("string-single-quote", s("it's")),
+        ("string-escape-char", s("a\u{1b}[1mb")),
+        ("string-unit-separator", s("x\u{1f}y")),
+        ("string-delete", s("\u{7f}")),
+        ("string-c1-controls", s("\u{85}\u{9b}\u{9f}")),
+        ("string-bell-backspace", s("\u{7}\u{8}\u{b}\u{c}\u{e}")),
+        ("string-bom-zwj", s("\u{feff}\u{200d}\u{200e}")),
         ("int-zero", Expr::Value(Value::Int(0))),
         ("int-negative", Expr::Value(Value::Int(-5))),
         ("int-max", Expr::Value(Value::Int(i128::MAX))),
@@ -281,6 +287,14 @@ fn run(ctx: &mut Ctx) {
                 judge(ctx, &mk(k, cs), "leaf-under-composite", &mut rng);
             }
         }
+    }
+    // 1b. every character below U+0100 (and a few beyond) as the content of a string literal
+    for cp in (0u32..0x100).chain([0x2028, 0x2029, 0xFFFD, 0xFFFF, 0x10000, 0x10FFFF]) {
+        if !ctx.mine() {
+            continue;
+        }
+        let c = char::from_u32(cp).unwrap();
+        judge(ctx, &Expr::Value(Value::String(format!("a{c}b"))), "string-each-low-character", &mut rng);
     }
     // 2. every composite kind in every child slot of every composite kind
     for outer in &comps {
